@@ -144,6 +144,8 @@ def compare(pid, cases, results, rng, L_of, tag="joltcorr", npert=NPERT):
         if fn == "distance":
             ex_name = {0: "NoIntersection", 1: "Intersection", 3: "Clipped"}.get(m0["g"], str(m0["g"]))
             stats["exits"][ex_name] = stats["exits"].get(ex_name, 0) + 1
+            sz = stats.setdefault("final_simplex_sizes", {})
+            sz[str(m0["npts"])] = sz.get(str(m0["npts"]), 0) + 1
             if m0["code"] == 3:
                 if not (o["d"] >= MAX_FLOAT * 0.99 and o["a"] is None):
                     why.append(f"model: clipped; implementation d={o['d']}")
